@@ -65,7 +65,7 @@ def tree_hash(extra=""):
 
 
 def build_harness(variant="A", sanitize="address", extra_cflags=(), exe_sources=("exec.c", "ops_table.c", "ops_codec.c"),
-                  exe_name="exec", threadpool="plain", tools=("mtbl_verify", "mtbl_dump", "mtbl_info", "mtbl_merge")):
+                  exe_name="exec", threadpool="plain", tools=("mtbl_verify", "mtbl_dump", "mtbl_info", "mtbl_merge"), link_flags=()):
     """compile the library sources of /repo's working tree + harness into build/<variant>/<exe_name>.
     Returns (path, log).  Rebuilds whenever any source or header changed."""
     cfgdir = config_h_dir()
@@ -109,7 +109,7 @@ def build_harness(variant="A", sanitize="address", extra_cflags=(), exe_sources=
                 logs.append(out)
     if logs:
         return None, "\n".join(logs)
-    san = (["-fsanitize=" + sanitize] if sanitize else [])
+    san = (["-fsanitize=" + sanitize] if sanitize else []) + list(link_flags)
     r = sh(["gcc"] + san + ["-o", exe] + objs[:ntool0] + LIBS)
     if r.returncode != 0:
         return None, r.stdout
